@@ -204,14 +204,17 @@ def gen_program(rng, obj, arch, depth=0):
     return ops, exp
 
 
-def render(arch, obj, rng, pad):
+SEP_CHARS = {'comma': ',', 'semicolon': ';', 'tab': '\t', 'space': ' ', 'pipe': '|'}
+
+
+def render(arch, obj, rng, pad, sep='comma'):
     """Document = root array [object, 424242, "tail"]; CSV = header + object row + sentinel row."""
     if arch == 'csv':
         header = [k for k, _ in obj[1]] + ['s1', 's2']
         row = []
         for k, v in obj[1]:
             row.append(str(v[1]).lower() if v[0] == 'b' else R.fmt_float(v[1]) if v[0] == 'f' else str(v[1]))
-        return R.render_csv(header, [row + ['', ''], [''] * len(obj[1]) + ['424242', 'tail']], rng=rng).encode('utf-8')
+        return R.render_csv(header, [row + ['', ''], [''] * len(obj[1]) + ['424242', 'tail']], sep=SEP_CHARS[sep], rng=rng).encode('utf-8')
     root = ('a', [obj, ('i', 424242), ('s', 'tail')])
     if arch == 'json':
         return (' ' * pad + R.render_json(root, rng)).encode('utf-8')
@@ -273,10 +276,11 @@ def run(tier):
             ops, exp = gen_program(rng, obj, arch)
             if not ops:
                 continue
-            doc = render(arch, obj, rng if rng.random() < 0.7 else None, rng.randrange(0, 40))
+            sep = rng.choice(list(SEP_CHARS)) if (arch == 'csv' and rng.random() < 0.5) else 'comma'
+            doc = render(arch, obj, rng if rng.random() < 0.7 else None, rng.randrange(0, 40), sep)
             src = rng.choice([dict(src='mem'), dict(src='sstream'), dict(src='slow', step=rng.choice([1, 3, 7, 31, 32, 33, 255, 256, 257])), dict(src='noseek', step=rng.choice([1, 5, 64]))])
             cid = 'c%d' % k
-            line = 'op=run id=%s arch=%s doc=%s prog=%s %s' % (cid, arch, doc.hex(), ';'.join(ops), ' '.join('%s=%s' % kv for kv in src.items()))
+            line = 'op=run id=%s arch=%s doc=%s prog=%s sep=%s %s' % (cid, arch, doc.hex(), ';'.join(ops), sep, ' '.join('%s=%s' % kv for kv in src.items()))
             lines.append(line)
             meta[cid] = (arch, obj, ops, exp, src, line, len(doc))
             for o in ops:
